@@ -171,12 +171,32 @@ class Cell(object):
         self.transparent = transparent
 
 
+def fold_subslices(path):
+    """canonical form of a reference path through sub-slice views counted from the end (`[a:-b]`): an element of the view is the element a+i of the
+    underlying vector, a view of a view is one view; so that two routes to the same place give the same path"""
+    out = []
+    for p in path:
+        if out and out[-1][0] == 'subslice' and out[-1][3]:
+            q = out[-1]
+            if p[0] == 'index':
+                out[-1] = ('index', q[1] + p[1])
+                continue
+            if p[0] == 'subslice' and p[3]:
+                out[-1] = ('subslice', q[1] + p[1], q[2] + p[2], True)
+                continue
+        out.append(p)
+    return tuple(out)
+
+
 class Ref(object):
     __slots__ = ('cell', 'path', 'mut')
 
     def __init__(self, cell, path=(), mut=False):
         self.cell = cell
-        self.path = tuple(path)
+        path = tuple(path)
+        if any(p[0] == 'subslice' for p in path):
+            path = fold_subslices(path)
+        self.path = path
         self.mut = mut
 
     def __repr__(self):
